@@ -527,7 +527,9 @@ func (m *M) combinator(kind StaticKind, c Cls, items []Value) Value {
 	// GetPromiseResolve(C) = the built-in C.resolve; iteration of an array never fails
 	values := &Arr{}
 	remaining := 1
-	aggregate := func() Value { return &ErrObj{Ctor: "AggregateError", Errors: &Arr{Elems: append([]Value(nil), values.Elems...)}} }
+	aggregate := func() Value {
+		return &ErrObj{Ctor: "AggregateError", Errors: &Arr{Elems: append([]Value(nil), values.Elems...)}}
+	}
 	for _, next := range items {
 		index := len(values.Elems)
 		if kind != StRace {
